@@ -592,6 +592,7 @@ func TestUntrustedInputs(t *testing.T) {
 	g := genCase(curves())
 	rec.Check(t, "untrusted", ev.N(260, 12000), func(rt *rapid.T) {
 		c := g.Draw(rt, "case")
+		rec.Begin("untrusted", c)
 		rec.Report(rt, "untrusted", c, run(c, rec))
 	})
 }
